@@ -20,5 +20,6 @@ theorem field_header_disambiguated : @Generated.Funcs.field_header_disambiguated
 theorem routing_param_disambiguated_field : @Generated.Funcs.routing_param_disambiguated_field = @Pinned.Funcs.routing_param_disambiguated_field := rfl
 theorem client_method_name : @Generated.Funcs.client_method_name = @Pinned.Funcs.client_method_name := rfl
 theorem sort_lines : @Generated.Funcs.sort_lines = @Pinned.Funcs.sort_lines := rfl
+theorem metadata_doc : @Generated.Funcs.metadata_doc = @Pinned.Funcs.metadata_doc := rfl
 
 end GapicModel.Bridge.Funcs
